@@ -153,15 +153,14 @@ def qopt (s : String) : String := if s.isEmpty then "-" else q s
 
 def b2s (b : Bool) : String := if b then "1" else "0"
 
-def renderCookie (ck : CookieCfg) (t : Int) : Ev → String
-  | .setCookie id =>
-    let exp := if ck.expOff == 0 then "-" else toString (t / 1000000000 + ck.expOff)
-    let ma : Int := if ck.maxAge > 0 then ck.maxAge else if ck.maxAge == 0 then 0 else -1
-    let ss : Int := if ck.sameSite == 2 || ck.sameSite == 3 || ck.sameSite == 4 then ck.sameSite else 0
-    "ck " ++ q ck.name ++ " " ++ q (renderID id) ++ " path=" ++ qopt ck.path ++ " dom=" ++ qopt ck.domain ++ " exp=" ++ exp
-      ++ " maxage=" ++ toString ma ++ " sec=" ++ b2s ck.secure ++ " http=" ++ b2s ck.httpOnly ++ " ss=" ++ toString ss
-  | .delCookie => "ck " ++ q ck.name ++ " deleted path=- dom=- exp=-1257894000 maxage=-1 sec=0 http=0 ss=0"
-  | _ => "?"
+def renderCookie (ck : CookieCfg) (t : Int) (e : Ev) : String :=
+  match cookieOut ck t e with
+  | none => "?"
+  | some c =>
+    "ck " ++ q c.name ++ " " ++ (match c.value with | some id => q (renderID id) | none => "deleted")
+      ++ " path=" ++ qopt c.path ++ " dom=" ++ qopt c.domain
+      ++ " exp=" ++ (match c.expires with | none => "-" | some x => toString x)
+      ++ " maxage=" ++ toString c.maxAge ++ " sec=" ++ b2s c.secure ++ " http=" ++ b2s c.httpOnly ++ " ss=" ++ toString c.sameSite
 
 def renderRet : RetV → String
   | .str s => s
